@@ -6,7 +6,7 @@ globals().update(
         pid="C18",
         props=["JaqalProofs/Props/C18.lean"],
         targets=["JaqalProofs.Props.C18"],
-        diffs=[("harness.agents.gdef_diff", 1000, 3000)],
+        diffs=[("harness.agents.gdef_diff", 1000, 3000), ("harness.agents.c18_scale", 100, 100)],
         trusted=[
             STD_TRUST,
             "hand-written model JaqalModel/Model/GateDef.lean of Parameter.validate, AbstractGate.call (positional / keyword / mixed, OrderedDict semantics), add_idle_gates, stretched_gates (dict iteration order, the wrapper's binding of its parent's unitary) and the emulator's argument split; C18_fits_table proves `fits` equal to an independently written specification table for EVERY value, not a sample",
